@@ -174,15 +174,31 @@ CornersOnFace(T) ==
        /\ \A k \in Range(T.cci[f + 1][1]) : T.corners[k + 1][d] = 1
        /\ \A k \in Range(T.cci[f + 1][2]) : T.corners[k + 1][d] = 0
 
+\* every index stored in the tables denotes an existing cell / face / corner: the clauses below index the tables with
+\* these values, so they are only evaluated on tables in range (a table out of range fails this clause by name)
+TablesInRange(T) ==
+  LET n == Len(T.shape) nf == NumFaces(T.shape) nc == NumCells(T.shape) IN
+  /\ Len(T.faces) = n /\ Len(T.interior) = n /\ Len(T.exterior) = n /\ Len(T.rev) = n
+  /\ CellsWellNumbered(T) /\ FaceCounts(T)
+  /\ \A d \in 1..n : /\ Range(T.faces[d]) \subseteq 0..nf - 1
+                      /\ Range(T.interior[d]) \subseteq 0..nf - 1 /\ Range(T.exterior[d]) \subseteq 0..nf - 1
+                      /\ Len(T.rev[d]) = nc
+                      /\ \A c \in 1..nc : Len(T.rev[d][c]) = 2 /\ T.rev[d][c][1] \in -1..nf - 1 /\ T.rev[d][c][2] \in -1..nf - 1
+  /\ \A f \in 1..Len(T.conn) : Len(T.conn[f]) = 2 /\ T.conn[f][1] \in 0..nc - 1 /\ T.conn[f][2] \in 0..nc - 1
+  /\ Len(T.corners) = Pow2(n) /\ \A k \in 1..Len(T.corners) : Len(T.corners[k]) = n
+  /\ Len(T.cci) = nf
+  /\ \A f \in 1..Len(T.cci) : Len(T.cci[f]) = 2 /\ \A sd \in 1..2 : Range(T.cci[f][sd]) \subseteq 0..Pow2(n) - 1
+
 GridClauses(T) ==
-  << <<"CellsWellNumbered", CellsWellNumbered(T)>>,
+  << <<"TablesInRange", TablesInRange(T)>>,
+     <<"CellsWellNumbered", CellsWellNumbered(T)>>,
      <<"FaceCounts", FaceCounts(T)>>,
-     <<"FacesNumberedOnce", FaceCounts(T) /\ FacesNumberedOnce(T)>>,
-     <<"FacesJoinNeighbours", FaceCounts(T) /\ FacesJoinNeighbours(T)>>,
-     <<"RevIsInverse", FaceCounts(T) /\ RevIsInverse(T)>>,
-     <<"NoFaceOnlyOnBoundary", FaceCounts(T) /\ NoFaceOnlyOnBoundary(T)>>,
-     <<"InteriorExteriorPartition", InteriorExteriorPartition(T)>>,
-     <<"CornersOnFace", FaceCounts(T) /\ CornersOnFace(T)>> >>
+     <<"FacesNumberedOnce", IF TablesInRange(T) THEN FacesNumberedOnce(T) ELSE TRUE>>,
+     <<"FacesJoinNeighbours", IF TablesInRange(T) THEN FacesJoinNeighbours(T) ELSE TRUE>>,
+     <<"RevIsInverse", IF TablesInRange(T) THEN RevIsInverse(T) ELSE TRUE>>,
+     <<"NoFaceOnlyOnBoundary", IF TablesInRange(T) THEN NoFaceOnlyOnBoundary(T) ELSE TRUE>>,
+     <<"InteriorExteriorPartition", IF TablesInRange(T) THEN InteriorExteriorPartition(T) ELSE TRUE>>,
+     <<"CornersOnFace", IF TablesInRange(T) THEN CornersOnFace(T) ELSE TRUE>> >>
 
 AllFail(cl) == {cl[i][1] : i \in {j \in DOMAIN cl : ~cl[j][2]}}
 FirstFail(cl) == IF \A i \in DOMAIN cl : cl[i][2] THEN "ok"
